@@ -110,6 +110,7 @@ def x_type(sc: Dict[str, Any]) -> str:
         "list_str": "List[str]",
         "list_cls": "List[Item]",
         "list_acls": "List[Item]",
+        "list_ccls": "List[Item]",
         "list_cprim": "List[Cp]",
     }[k]
     return "Optional[%s]" % t if sc["opt"] else t
@@ -150,26 +151,33 @@ def render_scenario(sc: Dict[str, Any]) -> Tuple[str, str]:
     # constrained primitives
     if kind in BASE_OF_KIND:
         base = BASE_OF_KIND[kind]
-        anc_invs = []
-        cp_invs = []
+        invs_of: Dict[str, List[Dict[str, Any]]] = {"cprim": [], "cprim_anc": [], "cprim_anc2": []}
         for a in sc["atoms"]:
-            if a["src"] == "cprim_anc":
-                anc_invs.append({"expr": _len_expr(a, "self"), "desc": desc()})
-            elif a["src"] == "cprim":
-                cp_invs.append({"expr": _len_expr(a, "self"), "desc": desc()})
+            if a["src"] in invs_of:
+                invs_of[a["src"]].append({"expr": _len_expr(a, "self"), "desc": desc()})
         for q, p in enumerate(sc["pats"]):
-            if p["src"] == "cprim_anc":
-                anc_invs.append({"expr": "matches_p%d(self)" % q, "desc": desc()})
-            elif p["src"] == "cprim":
-                cp_invs.append({"expr": "matches_p%d(self)" % q, "desc": desc()})
-        has_anc = any(k["src"] == "cprim_anc" for k in list(sc["atoms"]) + list(sc["pats"]))
-        if has_anc:
-            items.append({"kind": "cprim", "name": "Cp0", "base": base, "invs": anc_invs})
-            items.append({"kind": "cprim", "name": "Cp", "base": "Cp0", "invs": cp_invs})
-        else:
-            items.append({"kind": "cprim", "name": "Cp", "base": base, "invs": cp_invs})
+            if p["src"] in invs_of:
+                invs_of[p["src"]].append({"expr": "matches_p%d(self)" % q, "desc": desc()})
+        srcs = {k["src"] for k in list(sc["atoms"]) + list(sc["pats"])}
+        # the chain Cp00 <- Cp0 <- Cp is as long as the sources need
+        chain: List[Dict[str, Any]] = []
+        if "cprim_anc2" in srcs:
+            chain.append({"kind": "cprim", "name": "Cp00", "base": base, "invs": invs_of["cprim_anc2"]})
+        if "cprim_anc2" in srcs or "cprim_anc" in srcs:
+            chain.append({"kind": "cprim", "name": "Cp0", "base": "Cp00" if "cprim_anc2" in srcs else base, "invs": invs_of["cprim_anc"]})
+        chain.append({"kind": "cprim", "name": "Cp", "base": "Cp0" if len(chain) > 0 else base, "invs": invs_of["cprim"]})
+        # declaration order (the meta-model is parsed, not executed: a class may precede its parent)
+        cpo = sc.get("cpo", 0)
+        if cpo == 2:
+            chain.reverse()
+        elif cpo == 1 and len(chain) >= 2:
+            chain = [chain[0], chain[-1]] + chain[1:-1] if len(chain) == 3 else [chain[1], chain[0]]
+        items.extend(chain)
     if kind == "list_cls":
         items.append({"kind": "class", "name": "Item", "props": [{"name": "n", "type": "int"}]})
+    if kind == "list_ccls":
+        items.append({"kind": "class", "name": "Item", "wmt": True, "props": [{"name": "n", "type": "int"}]})
+        items.append({"kind": "class", "name": "Item_b", "bases": ["Item"], "props": []})
     if kind == "list_acls":
         items.append({"kind": "class", "name": "Item", "abstract": True, "wmt": True, "props": [{"name": "n", "type": "int"}]})
         items.append({"kind": "class", "name": "Item_b", "bases": ["Item"], "props": []})
@@ -204,7 +212,7 @@ def render_scenario(sc: Dict[str, Any]) -> Tuple[str, str]:
 # values
 # ---------------------------------------------------------------------------------------------
 
-LIST_KINDS = ("list_str", "list_cls", "list_acls", "list_cprim")
+LIST_KINDS = ("list_str", "list_cls", "list_acls", "list_ccls", "list_cprim")
 
 
 def value(inst: int, none: bool = False, cnt: int = 0, ln: int = 0, s: Optional[Sequence[int]] = None) -> Dict[str, Any]:
@@ -351,7 +359,9 @@ def build_instance(sc: Dict[str, Any], v: Dict[str, Any], T: Any) -> Any:
     elif kind == "list_cls":
         x = [T.Item(n=1) for _ in range(v["cnt"])]
     elif kind == "list_acls":
-        x = [T.Item_b(n=1) for _ in range(v["cnt"])]
+        x = [T.ItemB(n=1) for _ in range(v["cnt"])]
+    elif kind == "list_ccls":  # the concrete class itself and its concrete descendant, alternating
+        x = [(T.ItemB if q % 2 == 1 else T.Item)(n=1) for q in range(v["cnt"])]
     elif kind == "list_cprim":
         x = [s for _ in range(v["cnt"])]
     else:
@@ -382,7 +392,7 @@ def vtuple(v: Dict[str, Any]) -> List[Any]:
 def run_scenario(sc: Dict[str, Any], scratch: pathlib.Path, opts: Dict[str, Any]) -> Dict[str, Any]:
     import xmlschema
 
-    obs: Dict[str, Any] = {"sc": {k: sc[k] for k in ("fam", "kind", "L", "pa", "opt", "atoms", "pats")}, "id": sc.get("id", 0), "feat": sc.get("feat", []),
+    obs: Dict[str, Any] = {"sc": {k: sc[k] for k in ("fam", "kind", "L", "pa", "opt", "atoms", "pats")}, "id": sc.get("id", 0), "feat": sc.get("feat", []), "cpo": sc.get("cpo", 0),
                            "gen": "ok", "detail": "", "loads10": False, "loads11": False, "load_err": "", "xpats": [], "shapes": [], "vals": [], "muts": [], "ptexts": [], "sdk_excs": []}
     text, root_snippet = render_scenario(sc)
     obs["ptexts"] = [pattern_text(p["tree"]) for p in sc["pats"]]
@@ -437,8 +447,8 @@ def run_scenario(sc: Dict[str, Any], scratch: pathlib.Path, opts: Dict[str, Any]
     base_for_mut: Dict[int, Tuple[Dict[str, Any], ET.Element, List[str]]] = {}
     seen_shapes = set()
     for v in values_for(sc, opts["max_len"], opts["max_str"], opts["max_strings"]):
+        inst = build_instance(sc, v, T)  # a failure here is the harness's own (reported as harness_error)
         try:
-            inst = build_instance(sc, v, T)
             verify_ok = next(iter(V.verify(inst)), None) is None
             doc = X.to_str(inst)
             elem = ET.fromstring(doc)
